@@ -4,6 +4,7 @@ import (
 	"fmt"
 	"regexp"
 	"strings"
+	"testing"
 	"time"
 
 	"github.com/frankkopp/FrankyGo/internal/config"
@@ -36,7 +37,10 @@ func expectedPositions(lines []string) map[string]bool {
 		if len(tok) == 0 {
 			continue
 		}
-		exact := !strings.HasPrefix(line, " ") && !strings.HasPrefix(line, "\t")
+		// exact: printable ASCII tokens separated by single blanks - the only text whose reading as a command is
+		// beyond doubt; anything else (leading / unusual white space, control or non-ASCII characters) may be
+		// understood or ignored
+		exact := plainLine.MatchString(line)
 		switch tok[0] {
 		case "ucinewgame":
 			if exact {
@@ -109,6 +113,8 @@ func expectedPositions(lines []string) map[string]bool {
 	}
 	return cur
 }
+
+var plainLine = regexp.MustCompile(`^[!-~]+( [!-~]+)*$`)
 
 func propC16Uci(c uciLinesCase, o *hx.Obs) *hx.Failure {
 	save := config.Settings
@@ -359,4 +365,74 @@ func runC16Uci(r *hx.Rec) {
 	hx.Enum(r, "uci-long-line", false, func(yield func(uciLinesCase) bool) {
 		yield(uciLinesCase{Lines: []string{"position startpos moves e2e4", "position startpos moves " + strings.Repeat("e2e4 ", 14000), "isready"}})
 	}, propC16Uci)
+}
+
+// fuzzUciCase turns raw fuzzer text into a line sequence; ok=false for inputs outside the domain (too long,
+// 'quit', resource-exhaustion commands, isready look-alikes that make the final synchronisation ambiguous).
+func fuzzUciCase(s string) (uciLinesCase, bool) {
+	var c uciLinesCase
+	if len(s) > 700 {
+		return c, false
+	}
+	lines := strings.Split(s, "\n")
+	if len(lines) > 12 {
+		return c, false
+	}
+	for _, line := range lines {
+		f := strings.Fields(line)
+		if strings.HasPrefix(strings.TrimSpace(line), "quit") || resourceHog(line) {
+			return c, false
+		}
+		if len(f) > 0 && f[0] == "quit" {
+			return c, false
+		}
+		if len(f) > 0 && f[0] == "isready" && regexp.MustCompile(`\s+`).Split(line, -1)[0] != "isready" {
+			return c, false
+		}
+		if strings.ContainsAny(line, "\r") {
+			return c, false // the line reader may or may not strip it: reading of the line is ambiguous
+		}
+		for i, t := range f {
+			// a search that cannot be ended by the closing 'stop' within the allowance: perft is not stoppable by stop
+			if t == "perft" && i == 0 && len(f) > 1 {
+				for _, v := range f[1:] {
+					if v != "1" && v != "2" {
+						return c, false
+					}
+				}
+			}
+		}
+	}
+	c.Lines = lines
+	return c, true
+}
+
+// FuzzC16Uci is the coverage-guided variant of the uci-lines check (thorough tier, native go fuzzing): raw text,
+// split into lines, is fed to a fresh protocol loop; the oracle is the one of propC16Uci (no panic in any
+// goroutine, 'stop; isready' still answered, the handler still holds the last validly set position).
+func FuzzC16Uci(f *testing.F) {
+	for _, s := range []string{
+		"position startpos moves e2e4 e7e5\ngo depth 2\nisready",
+		"uci\nsetoption name Hash value 2\nucinewgame\nposition fen r3k2r/8/8/8/8/8/8/R3K2R w KQkq - 0 1 moves e1g1\ngo nodes 300",
+		"position fen 4k3/8/8/8/8/8/8/4K3 w - e1 0 1\ngo infinite\nstop",
+		"go wtime 300 btime 300 winc 10 binc 10 movestogo 5\nponderhit\nstop",
+		"position startpos moves e2e5\ngo searchmoves e2e4 depth 1",
+		"setoption name Use_Hash value false\nsetoption name Clear Hash\ngo ponder\nisready\nponderhit",
+		"position\nposition fen\ngo depth\nsetoption name Hash value -5\n \n\t\n\x00",
+		"position fen 8/b7/6P1/6R1/2K5/8/P7/R3kn2\ngo depth 1",
+		"position fen 8/6q1/8/4P1P1/8/8/8/1k2r1K1 w Qk - 0 111\ngo depth 3",
+		"perft 1\ngo mate 2\ndebug on\nregister later\nnoop",
+	} {
+		f.Add(s)
+	}
+	f.Fuzz(func(t *testing.T, s string) {
+		c, ok := fuzzUciCase(s)
+		if !ok {
+			return
+		}
+		o := &hx.Obs{}
+		if fail := hx.Guard("C16/uci", func() *hx.Failure { return propC16Uci(c, o) }); fail != nil {
+			t.Fatalf("%s\n%s", fail.Sig, fail.Msg)
+		}
+	})
 }
